@@ -213,6 +213,13 @@ def defect_classes(pre, op):
                     owned += ifs_of_node(n)
         if any(g.typ(i) == 'ServicePort' for i in owned):
             out.append('owned-serviceport')
+    if kind == 'peer':
+        # peer checks neither that the two services differ nor that the derived link name <a>-<b>-link is free
+        if a[0] == a[1]:
+            out.append('self-peer')
+        na, nb = g.name(a[0]), g.name(a[1])
+        if na is not None and nb is not None and (na + '-' + nb + '-link') in [g.name(l) for l in g.ids(LINK)]:
+            out.append('peer-link-name')
     if kind in ('connect', 'add_ns', 'add_pm'):
         # connect_interface derives the names of the service port and of the link from <owner node>-<interface>
         def owner_name(i):
